@@ -42,9 +42,12 @@ structure Facts where
   nbfTypeChecked : Bool            -- a present `nbf` of wrong type is rejected
   deriving Repr
 
+/-- `strings.HasPrefix(alg, p)` for the two-character prefixes of `verifySignature` (kernel-reducible form) -/
+def hasPrefix2 (a : String) (p : List Char) : Bool := a.toList.take 2 == p
+
 def familyOfAlg (a : String) : Family :=
-  if a.startsWith "RS" || a.startsWith "PS" then .rsa
-  else if a.startsWith "ES" then .ec
+  if hasPrefix2 a ['R', 'S'] || hasPrefix2 a ['P', 'S'] then .rsa
+  else if hasPrefix2 a ['E', 'S'] then .ec
   else .unsupported
 
 inductive Reject
